@@ -613,6 +613,15 @@ def proxy_rule(chk, db):
                                         wrote = True
                             if x.get("k") == "call" and astx.callee(x)[0] in ("set", "reset", "flip", "operator=") and astx.callee(x)[3] == "member":
                                 wrote = True
+                            # `*this = value` with a bool operand: the sibling operator=(bool), which is judged on its own
+                            if want == "reference" and x.get("k") == "bin" and x["op"] == "=":
+                                l2 = astx.strip_casts(x["l"])
+                                while l2 is not None and l2.get("k") == "paren":
+                                    l2 = astx.strip_casts(l2.get("e"))
+                                r2 = astx.strip_casts(x["r"])
+                                if l2 is not None and l2.get("k") == "un" and l2["op"] == "*" and astx.is_this(astx.strip_casts(l2["e"])) and \
+                                        not (r2 is not None and r2.get("k") == "ref" and "reference" in (r2.get("ty") or "")):
+                                    wrote = True
                 if not wrote:
                     bad = p
             chk.obligation("PROXY", construct, bad is None)
@@ -839,6 +848,9 @@ META = (META[0] + ' SELFGUARD (a non-idempotent compound assignment such as ^= i
 META = (META[0] + ' UNCOND (compound operators apply their operation on every path).', META[1])
 
 
+META = (META[0] + ' WHOLEOPS (set() / reset() overwrite every word before anything reads the old words; flip() never stores a constant into a word).', META[1])
+
+
 def run(chk, tier):
     db = D.load("checks")
     from ..rules import params as _PR
@@ -853,6 +865,7 @@ def run(chk, tier):
     wordsplit_rule(chk, db)
     cstrn_rule(chk, db)
     litmask_rule(chk, db)
+    wholeops_rule(chk, db)
     agg_rule(chk, db)
     retarg_rule(chk, db)
     from ..rules import iters as _ITG
@@ -1105,6 +1118,89 @@ def cstrn_rule(chk, db):
 
 
 # ---- LITMASK: single-bit masks are built in the word type --------------------------------------------------------------------
+def wholeops_rule(chk, db):
+    """WHOLEOPS: the argument-less mutators of basic_bitset. `set()` / `reset()` leave a value that does not depend on the
+    previous one: along every path, a statement that READS the words (`flip()`, a transform over `_words`, a compound
+    assignment to a word) is preceded by writes of constants that cover every word (`fill(begin, end, c)`, or
+    `fill(begin, prev(end), c)` plus an assignment to the last word). `flip()` is the opposite: its result depends on every
+    word, so it never stores a constant into a word (`fill`, `_words[i] = c` with c not reading the word)."""
+    from ..rules import sets as _SPW
+    rq = "etl::basic_bitset"
+    n = 0
+
+    def reads_words(e):
+        return any((y.get("k") == "mem" and y.get("n") == "_words") for y in astx.walk_expr(e, into_lambdas=True))
+
+    def classify(x):
+        """'const-all' | 'const-head' | 'const-last' | 'const-some' | 'read' | None for one expression statement"""
+        x = astx.strip_casts(x)
+        if x is None:
+            return None
+        if x.get("k") == "call":
+            nm = astx.callee(x)[0]
+            a = x.get("a") or []
+            if nm in ("fill", "fill_n") and len(a) == 3 and reads_words(a[0]) and not reads_words(a[2]):
+                hi = astx.show(astx.strip_casts(a[1]), 60)
+                if re.search(r"prev\s*\(", hi) or re.search(r"end\(\)\s*-\s*1", hi):
+                    return "const-head"
+                if re.search(r"_words\.c?end\(\)$", hi.strip("() ")) or hi.strip().endswith("end()") or hi.strip().endswith("end())"):
+                    return "const-all"
+                return "const-some"
+            if nm in ("transform", "for_each", "flip", "generate") or (nm in ("fill", "copy") and any(reads_words(y) for y in a[2:])):
+                return "read" if (nm == "flip" or any(reads_words(y) for y in a)) else None
+            if nm in ("set", "reset") and not a:
+                return "const-all"
+            return "read" if any(reads_words(y) for y in a) and nm not in ("begin", "end", "size") else None
+        if x.get("k") == "bin" and x.get("op", "").endswith("=") and x["op"] not in ("==", "!=", "<=", ">="):
+            l = astx.strip_casts(x["l"])
+            if l is not None and l.get("k") == "idx" and reads_words(l):
+                if x["op"] == "=" and not reads_words(x["r"]):
+                    idx = astx.show(astx.strip_casts(l["i"]), 40)
+                    return "const-last" if re.search(r"num_words\s*-\s*1|size\(\)\s*-\s*1", idx) else "const-some"
+                return "read"
+        return None
+
+    for f in db.funcs:
+        if f.get("record") != rq or f["n"] not in ("set", "reset", "flip") or f["params"] or f.get("body") is None:
+            continue
+        n += 1
+        construct = astx.sig(f)
+        chk.instance("WHOLEOPS")
+        bad = None
+        for path in _SPW.paths(f["body"]):
+            head = last = allw = False
+            for ev in path:
+                kind, node = ev[0], ev[1]
+                e = None
+                if kind == "expr":
+                    e = node.get("e") if node.get("k") == "expr" else node
+                elif kind == "ret":
+                    e = node.get("e") if isinstance(node, dict) and node.get("k") == "return" else node
+                if e is None:
+                    continue
+                c = classify(e)
+                if f["n"] in ("set", "reset"):
+                    if c == "const-all":
+                        allw = True
+                    elif c == "const-head":
+                        head = True
+                    elif c == "const-last":
+                        last = True
+                    elif c == "read" and not (allw or (head and last)) and bad is None:
+                        bad = (e, "`%s` reads the previous words before every word has been overwritten: the value `%s()` leaves then depends on "
+                               "what the set held (the whole-set mutators are idempotent: `set().set()` is `set()`)" % (astx.show(e, 50), f["n"]))
+                else:
+                    if c in ("const-all", "const-head", "const-last", "const-some") and bad is None:
+                        bad = (e, "`%s` stores a value that does not depend on the word it replaces: `flip()` inverts every word, so "
+                               "`flip().flip()` restores the set" % astx.show(e, 50))
+        chk.obligation("WHOLEOPS", construct, bad is None)
+        if bad:
+            chk.violation("WHOLEOPS", construct, "state-dependence", "%s: %s" % (astx.loc(f, bad[0]), bad[1]), {"where": astx.loc(f)})
+    if n < 3:
+        chk.analysis_broken("WHOLEOPS: set() / reset() / flip() of basic_bitset not all found (%d of 3)" % n)
+    return n
+
+
 def litmask_rule(chk, db, prefixes=("_bitset/",)):
     """A mask `1 << offset` / `1U << offset` is computed in int / unsigned int whatever the word type is: for 64-bit words an
     offset of 32 or more is out of range for the shift (x86 wraps it to offset - 32), and `1 << 31` sign-extends when it is
